@@ -34,9 +34,12 @@ def execute(queue, secure, make="scheme", slow=False):
     try:
         for i, s in enumerate(queue):
             if i % 2:
-                rig.cli.request(method="POST", path="/p%d" % (i + 1), body=b"body%d" % i, rid=i + 1, reply=TAGS[i % len(TAGS)])
+                # explicitly no query arguments and no header fields (empty, not None): nothing of the request before may be used
+                rig.cli.request(method="POST", path="/p%d" % (i + 1), body=b"body%d" % i, rid=i + 1, reply=TAGS[i % len(TAGS)],
+                                qargs={}, headers={})
             else:
-                rig.cli.request(method="GET", path="/p%d" % (i + 1), qargs={"n": str(i)}, rid=i + 1, reply=TAGS[i % len(TAGS)])
+                rig.cli.request(method="GET", path="/p%d" % (i + 1), qargs={"n": str(i)}, headers={"X-Get": str(i)}, rid=i + 1,
+                                reply=TAGS[i % len(TAGS)])
         outstanding = 0
         delayed = []            # [rounds to go, bytes]
         hop = {}
@@ -58,6 +61,9 @@ def execute(queue, secure, make="scheme", slow=False):
                     path = rq["line"].split()[1].split("?")[0]
                     if path.startswith("/p"):
                         rid = int(path[2:])
+                        query = rq["line"].split()[1].partition("?")[2]
+                        if query != ("" if (rid - 1) % 2 else "n=%d" % (rid - 1)) or ("x-get" in rq["headers"]) != (not (rid - 1) % 2):
+                            problems.append("request %d went out as %r with header fields %s" % (rid, rq["line"], sorted(rq["headers"])))
                         hop[rid] = 0
                         s = queue[rid - 1]
                     else:                                   # follow-up of a redirect: /h<rid>_<hop>
